@@ -33,14 +33,18 @@ def make_cases(ctx: Ctx):
     cases = []
     n = 40 if ctx.thorough else 8
     for k in range(n):
-        gs = trk.grid_spec(ctx.seed * 100 + k, land=False)
+        imax, jmax = [(12, 10), (8, 17), (10, 10), (15, 7)][k % 4]     # wide, tall, square
+        gs = trk.grid_spec(ctx.seed * 100 + k, imax=imax, jmax=jmax, land=False)
         dxv = float(gs["dx"][0, 0])
         for name, cu, cv in fields(r):
             for scheme in ("EF", "RK2", "RK4"):
                 # displacement per step below about one cell: |u| dt / dx <~ 1
                 dt = int(2 ** r.randint(0, 8))
-                parts = [[float(r.randint(3 * 16, 8 * 16)) / 16, float(r.randint(3 * 16, 6 * 16)) / 16, 5.0, 1, 1] for _ in range(6)]
+                # anywhere in the interior of the valid region (also close to its edges, where the stage clip acts)
+                parts = [[float(r.randint(2 * 16, (imax - 3) * 16)) / 16, float(r.randint(2 * 16, (jmax - 3) * 16)) / 16, 5.0, 1, 1] for _ in range(7)]
                 parts[0][0] = 4.0; parts[0][1] = 4.0
+                parts[1][0] = imax - 2.75; parts[1][1] = jmax - 2.75
+                parts[2][0] = 1.75; parts[2][1] = 1.75
                 scale = Fraction(dxv) / dt / 8
                 cu2 = [Fraction(c) * scale for c in cu]
                 cv2 = [Fraction(c) * scale for c in cv]
